@@ -15,7 +15,7 @@ Definition pool_fetch (pool : list (key * option (list byte))) : fetcher :=
 Definition mtag (k : N) : tag :=
   match k with
   | 0 => [x11; x11; x11; x11; x11; x11; x11; x11]
-  | 1 => [x22; x22; x22; x22; x22; x22; x22; x22]
+  | 1 => [x00; x22; x22; x22; x22; x22; x22; x00]
   | 2 => [x11; x11; x11; x11; x11; x11; x11; x33]
   | _ => [x44; x00; x00; x00; x00; x00; x00; x44]
   end.
